@@ -1,6 +1,6 @@
 (* Property C08 — exactly the well-formed AIVDM/AIVDO sentence shapes are accepted.
    [WellFormed] (Spec/Grammar.v) is the decomposition in the property statement. *)
-From Ais Require Import Model.Base Model.Sentence Spec.Grammar Proofs.SentenceLemmas Model.NomBytes Proofs.NomBytesProof Proofs.Reassembly Proofs.Histories Proofs.Strings.
+From Ais Require Import Model.Base Model.Sentence Spec.Grammar Proofs.SentenceLemmas Model.NomBytes Proofs.NomBytesProof Proofs.Reassembly Proofs.Histories Proofs.Strings Proofs.TagBlocks.
 From Coq Require Import String.
 Local Open Scope N_scope.
 
@@ -56,6 +56,32 @@ Theorem C08_checksum_field_through_library :
   forall l, hex_u32_nom l = hex_u32 l.
 Proof. exact hex_u32_nom_eq. Qed.
 Print Assumptions C08_checksum_field_through_library.
+
+(* nothing in a TAG block matters: a line behind a TAG block — a backslash, any bytes but a backslash (parameter codes,
+   numbers, the block's own checksum, right or wrong), a backslash — is handled exactly like the line without it:
+   same result and same parser state, in every state; and so for whole histories, each line behind a block of its own *)
+Theorem C08_tag_block_is_irrelevant :
+  forall c q st tb start rest d, tag_block tb -> start = 33 \/ start = 36 ->
+    step c q st (tb ++ start :: rest) d = step c q st (start :: rest) d.
+Proof. exact step_behind_tag_block. Qed.
+Print Assumptions C08_tag_block_is_irrelevant.
+
+Theorem C08_tag_blocks_are_irrelevant_in_histories :
+  forall c q h st, Forall (fun '(tb, line, _) => tag_block tb /\ sentence_start line) h ->
+    run c q st (tagged h) = run c q st (untagged h).
+Proof. exact run_behind_tag_blocks. Qed.
+Print Assumptions C08_tag_blocks_are_irrelevant_in_histories.
+
+(* ... and nothing behind the checksum digits: lines of the same shape (same fields, same checksum digits) that differ
+   in their TAG block, start delimiter or in what follows the checksum are handled alike in every state *)
+Theorem C08_only_the_shape_matters :
+  forall c q st line1 line2 f hex d, Shaped c line1 f hex -> Shaped c line2 f hex ->
+    step c q st line1 d = step c q st line2 d.
+Proof. exact step_of_shape_only. Qed.
+Print Assumptions C08_only_the_shape_matters.
+
+Example C08_hostile_tag_block : tag_block [92; 99; 58; 45; 49; 42; 48; 48; 92].   (* \c:-1*00\ *)
+Proof. exact hostile_block_is_a_tag_block. Qed.
 
 Example C08_nonvacuous_accept :
   accepted_at_sentence_level Std quirks_asis (bytes "\s:2573345,c:1696241893*00\!AIVDM,1,1,,A,E>kb9I99S@0`8@:9ah;0TahI7@@;V4=v:nv;h00003vP100,0*7A").
